@@ -208,6 +208,9 @@ def run(ctx):
         a = leaf(rng, 2, rng.randrange(1, 5))
         b = leaf(rng, 2, rng.randrange(1, 4))
         k = rng.randrange(1, 7)
+        if rng.random() < 0.3:
+            # state carries from pass to pass: a tie left open by the last note of the body joins the next pass
+            a = a + " " + rng.choice(["c&", "d8&", "c4&c8&", "e&"])
         pairs.append(("[%d %s ] c" % (k, a), " ".join([a] * k) + "  c", "[n body]", True))
         pairs.append(("[%d %s : %s ] c" % (k, a, b), " ".join([a + " " + b] * (k - 1) + [a]) + "  c", "[n a : b]", True))
     compare(ctx, pairs, "literal")
